@@ -128,7 +128,7 @@ def c02(tier, seed):
         cand = [list(q) for r in range(1, min(len(uni), 4) + 1) for q in itertools.combinations(uni, r)
                 if frozenset(int(x[1:]) for x in q) not in fam and not (r == 1 and q[0] in pts)]
         for q in (rng.sample(cand, min(4, len(cand))) if thin else cand):
-            idt = rng.choice(['u60', '-', 'a1.0', 'a0.0', 'a2.1'])
+            idt = rng.choice(['u60', '-', 'a1.0', 'a0.0', 'a2.1', 'u11'])      # u11 is 0 in the pool of falsy names
             d = rng.choice(['-', 'DX'])
             lines = base + (['dict DX {2:7}'] if d == 'DX' else []) + ['!snap c0']
             L = Live(pool, 'C02 addb %s id=%s' % (q, idt))
@@ -819,7 +819,8 @@ def c11(tier, seed):
     for i, fam in enumerate(fams):
         pool = POOL_NAMES[i % len(POOL_NAMES)]
         lines = build_lines(fam, 'c0', ['faces', 'basis'][i % 2], attrs=(i % 4 == 0))
-        lines += ['!snap c0', 'flag c0 f', '!flag c0 f', '!same c0', 'obs f', 'flag f g', 'obs g', '!samefam f g']
+        lines += ['!snap c0', 'flag c0 f', '!flag c0 f', '!same c0', 'obs f', 'alias', '!noshare c0 f', 'flag f g', 'obs g', '!samefam f g',
+                  'add f - [] -', '!same c0']
         yield dict(lines=lines, pool=pool, tag='C11 flag of %s' % (sorted(map(sorted, fam)),))
     for n in (5, 6):
         lines = ['new c0'] + ['add c0 u%d [] -' % p for p in range(n)] + ['addb c0 - [u%d,u%d] -' % (a, b) for a, b in itertools.combinations(range(n), 2)]
@@ -856,7 +857,11 @@ def c11(tier, seed):
                 r = L.do('addb f - [u%d,u%d] -' % (a, b))
                 toks.append(r.split()[1])
             added += new
-            L.do('grow f ' + Lst(toks))
+            if len(toks) >= 2 and rng.random() < 0.5:
+                for tk in toks:                      # the same edges handed over in separate calls
+                    L.do('grow f ' + Lst([tk]))
+            else:
+                L.do('grow f ' + Lst(toks))
             L.do('obs f')
             # rebuild from scratch
             L.do('new s')
@@ -1216,7 +1221,7 @@ def c18(tier, seed):
     rng = random.Random(seed)
     kmax = 5 if tier == 'quick' else 6
     for k in range(0, kmax + 1):
-        for idt in ('-', 'u5', 'a0.1', 'a%d.0' % k, 'a1.2'):
+        for idt in ('-', 'u5', 'u0', 'a0.1', 'a%d.0' % k, 'a1.2'):      # u0 is the integer 0 (falsy)
             for d in ('-', 'D1'):
                 lines = (['dict D1 {1:4}'] if d == 'D1' else []) + ['ksimplex c0 new %d %s %s' % (k, idt, d), '!gen c0 ksimplex %d %s %s' % (k, idt, d), 'obs c0', 'q c0 betti', 'q c0 counts']
                 yield dict(lines=lines, pool='int', tag='C18 k_simplex(%d, id=%s)' % (k, idt))
